@@ -17,7 +17,7 @@ type Cond struct {
 
 // AuthRule is one http-request rule that takes part in external authentication.
 type AuthRule struct {
-	Act   string // deny | intercept | guard-deny | guard-redirect
+	Act   string // deny | intercept | guard-deny | guard-redirect | service
 	Name  string // auth backend name of an intercept
 	Args  []string
 	Conds []Cond
@@ -161,6 +161,9 @@ func ParseAuthRules(lines []string) []AuthRule {
 			r.Act = "deny"
 		case t[1] == "redirect" && guard:
 			r.Act = "guard-redirect"
+		case t[1] == "use-service":
+			// answered by a service of the proxy (cors preflight ...): never reaches the servers
+			r.Act = "service"
 		case t[1] == "lua.auth-intercept" && ifAt >= 3:
 			r.Act, r.Name, r.Args = "intercept", t[2], t[3:ifAt]
 		default:
@@ -296,7 +299,7 @@ func RunAuth(rules []AuthRule, q Request, ok func(name string) bool) Verdict {
 			continue
 		}
 		switch r.Act {
-		case "deny", "guard-deny", "guard-redirect":
+		case "deny", "guard-deny", "guard-redirect", "service":
 			v.By = r.Raw
 			return v
 		case "intercept":
